@@ -80,7 +80,9 @@ func scanSpecDirs(dirs []string, scanFn scanSpecFunc) error {
 				if errors.Is(err, fs.ErrNotExist) {
 					return nil
 				}
-				return err
+				// a directory that cannot be accessed is reported, but
+				// must not prevent scanning the remaining directories
+				return scanFn(path, priority, nil, err)
 			}
 			// first call from Walk is for dir itself, others we skip
 			if info.IsDir() {
